@@ -52,6 +52,8 @@ def parseAct (toks : List String) : Option Act :=
   | ["cSaveRet"] => some .cSaveRet
   | ["cReadExc", t, v] => do pure (.cReadExc (← t.toNat?) (← parseBool v))
   | ["cExc"] => some .cExc
+  | ["cCmdShutdown"] => some .cCmdShutdown
+  | ["cUptime"] => some .cUptime
   | ["cJoin", t] => do pure (.cJoin (← t.toNat?))
   | ["cFinalSaveBegin"] => some .cFinalSaveBegin
   | ["cFinalSaveEnd"] => some .cFinalSaveEnd
